@@ -169,6 +169,36 @@ pub fn one_input(rep: &mut Report, fam: &str, idx: u64, label: &str, bytes: Vec<
                 Ok(resp) => {
                     class = "ok";
                     rep.nontrivial(hash64(&data));
+                    // re-encoding must also work after the returned message was edited through the public accessors (an attribute
+                    // removed, one replaced, one inserted through attributes_mut(); a whole group dropped through groups_mut())
+                    phase(6);
+                    if data.len() <= 65_536 {
+                        let edited = catch(|| {
+                            let mut a = resp.attributes().clone();
+                            let mut n = 0usize;
+                            for g in a.groups_mut().iter_mut() {
+                                let names: Vec<String> = g.attributes().keys().cloned().collect();
+                                if let Some(first) = names.first() {
+                                    g.attributes_mut().remove(first);
+                                }
+                                if let Some(second) = names.get(1) {
+                                    g.attributes_mut().insert(second.clone(), ipp::attribute::IppAttribute::new(second, IppValue::Integer(1)));
+                                }
+                                g.attributes_mut().insert("verif-inserted".into(), ipp::attribute::IppAttribute::new("verif-inserted", IppValue::Boolean(true)));
+                                n += 1;
+                            }
+                            let mut len = a.to_bytes().len();
+                            if n > 1 {
+                                a.groups_mut().pop();
+                                len += a.to_bytes().len();
+                            }
+                            a.add(ipp::model::DelimiterTag::JobAttributes, ipp::attribute::IppAttribute::new("verif-added", IppValue::NoValue));
+                            len + a.to_bytes().len()
+                        });
+                        if let Err(msg) = edited {
+                            rep.violation(sig(fam, "panic", 6, &panic_site(&msg)), format!("{label}: re-encoding the parsed result after editing it through attributes_mut()/groups_mut()/add() panicked: {msg}; input={}", hex_short(&data, 600)), replay.to_vec());
+                        }
+                    }
                     if let Err((ph, msg)) = inspect(resp) {
                         rep.violation(sig(fam, "panic", ph, &panic_site(&msg)), format!("{label}: {} of the parsed result panicked: {msg}; input={}", PHASES[ph], hex_short(&data, 600)), replay.to_vec());
                     }
@@ -280,6 +310,10 @@ pub fn run_worker(args: &Args, tier: &str, seed: u64) -> Report {
                     }
                     if fam == "bytes12" {
                         let (tag, body) = corpus::bytes12_params(idx);
+                        one_value(&mut rep, &fam, idx, &label, tag, body, &replay);
+                    }
+                    if fam == "strings" {
+                        let (tag, body) = corpus::strings_params(idx);
                         one_value(&mut rep, &fam, idx, &label, tag, body, &replay);
                     }
                     if fam == "chains" {
